@@ -16,6 +16,7 @@ import os
 import random
 import re
 import shutil
+import struct
 import time
 
 from vplib import *
@@ -308,6 +309,7 @@ def derive(base, metas, rng, per_file_cuts):
     {dir, meta (index), kind, alt (index of an alternative acceptable meta or None), note}."""
     states = []
     ncidx = [0]       # torn cache file states per scenario are bounded
+    nempty = [0]
     snaps = os.path.join(base, "snaps")
     crash = os.path.join(base, "crash")
     os.makedirs(crash, exist_ok=True)
@@ -355,6 +357,15 @@ def derive(base, metas, rng, per_file_cuts):
                         with open(os.path.join(d, "index", f), "r+b") as fh:
                             fh.truncate(c)
                     add(src, mi, "torn-cidx", note="%s cut at %d of %d" % (f, c, size), mutate=mutc)
+        # crash while a capture file is being written into the pcap directory (upload, pcap-over-ip, tcpdump):
+        # only the 24 byte file header is there
+        if m["label"] == "idle" and nempty[0] < 2:
+            nempty[0] += 1
+
+            def mutp(d):
+                with open(os.path.join(d, "pcap", "zz-being-written.pcap"), "wb") as fh:
+                    fh.write(struct.pack("<IHHiIII", 0xa1b2c3d4, 2, 4, 0, 0, 0xffff, 228))
+            add(src, mi, "capture-being-written", note="pcap/zz-being-written.pcap holds only the pcap file header", mutate=mutp)
         # crash inside the writing of the snapshot file
         sn = files(src, "snapshot", ".snap")
         if sn and m["label"].startswith("gate import.done"):
@@ -790,7 +801,7 @@ def judge(state, metas, rec, vers):
             k = str(cont["id"])
             old, new = (r["streams"] or {}).get(k), (r.get("streams_c") or {}).get(k)
             tail = ",0:" + cont["data"].encode().hex()
-            exact = state["kind"] in ("copy:idle", "closed")      # nothing was in flight: exactly the old stream plus the new datagram
+            exact = state["kind"] in ("copy:idle", "closed", "capture-being-written")      # nothing was in flight: exactly the old stream plus the new datagram
             if old is not None and (new is None or not (new.startswith(old) and new.endswith(tail)) or (exact and new != old + tail)):
                 fails.append(("continuation", "stream %s was %s after the restart; an import continuing its flow made it %s (expected it extended by %s)" % (k, old, new, tail)))
             if state["kind"] in ("copy:idle", "closed") and set(r.get("streams_c") or {}) != set(r["streams"] or {}):
@@ -1002,14 +1013,14 @@ def main(tier, seed, replay=None):
                 if ">" in flow:
                     c, sv = flow.split(">")
                     s["cont"] = {"c": c, "s": sv, "t": tmax + 1, "data": "ZZ", "id": int(ids[0])}
-            s["deep"] = (tier != "quick") or s["kind"] in ("copy:idle", "copy:gate import.done", "copy:gate convert.done", "copy:gate convert.start", "copy:gate merge.done", "torn-cidx") \
+            s["deep"] = (tier != "quick") or s["kind"] in ("copy:idle", "copy:gate import.done", "copy:gate convert.done", "copy:gate convert.start", "copy:gate merge.done", "torn-cidx", "capture-being-written") \
                 or bool(s.get("cidx")) or rng.random() < 0.1
             if not s["deep"]:
                 s.pop("cont", None)
     if tier == "quick" and not replay and len(all_states) > QUICK_STATES:
         # fixed budget for the quick tier (recovery costs ~25 ms per state): keep every copy and every
         # traced state of the corpus scenarios, sample the rest
-        prio = lambda s: s["kind"].startswith("copy") or s["kind"] == "torn-cidx" or s.get("cidx")
+        prio = lambda s: s["kind"].startswith("copy") or s["kind"] in ("torn-cidx", "capture-being-written") or s.get("cidx")
         keep = [s for s in all_states if prio(s)]
         rest = [s for s in all_states if not prio(s)]
         rng.shuffle(rest)
